@@ -12,6 +12,7 @@ import TboxModel.C09.Spec
 import TboxModel.C09.Proofs
 import TboxModel.C09.Reframe
 import TboxModel.C09.Dispatch
+import TboxModel.C09.FileFaults
 namespace Tbox.C09
 
 /-! ## (a) truncation -/
@@ -219,6 +220,68 @@ theorem C09_render_marker_counterexample :
     renderAsFound r = renderAsFound { r with trunc := false } := by
   decide
 
+
+/-! ### (e') all sinks: colour, SyncStdoutSink, AsyncStdoutSink, AsyncSyslogSink -/
+
+/-- the tables extracted from log_impl.cpp on this run: the level letters are the documented
+ones (F E W N I I D T) and there is one colour code per level, each a non-empty SGR parameter
+string (digits and `;`) — so `ESC[<code>m … ESC[0m` is a well-formed bracket -/
+theorem C09_tables :
+    genLevelCodes = levelCodes.map (fun c => c.toNat.toUInt8) ∧ genColorCodes.length = 8 ∧
+    ∀ c ∈ genColorCodes, c ≠ [] ∧ ∀ b ∈ c, (48 ≤ b ∧ b ≤ 57) ∨ b = 59 := by
+  decide
+
+/-- **C09_render** for the async file / stdout sinks, colour off and on: the fields in their
+fixed order, bracketed by `ESC[<code>m` and `ESC[0m` iff colour is enabled, then a newline -/
+theorem C09_render (color : Bool) (r : Rec) :
+    renderC color r = (if color then [27, 91] ++ colorCode r.level ++ [109] else [])
+      ++ [levelCode r.level, 32] ++ r.ts ++ [32] ++ r.tid ++ [32] ++ r.module ++ [32]
+      ++ (match r.func with | some f => f ++ funcSuffix | none => [])
+      ++ (if r.text.length > 0 then r.text ++ [32] else [])
+      ++ (if r.trunc then truncMarker else [])
+      ++ (match r.file with | some f => filePrefix ++ f ++ [58] ++ r.line | none => [])
+      ++ (if color then [27, 91, 48, 109] else []) ++ [10] ∧
+    renderC false r = render r := by
+  obtain ⟨level, ts, tid, module, func, text, trunc, file, line⟩ := r
+  constructor
+  · cases color <;> cases func <;> cases file <;>
+      simp [renderC, renderBody, colorOn, colorOff, Rec.head, Rec.funcPiece, Rec.textPiece, Rec.filePiece, List.append_assoc]
+  · simp [renderC, renderBody, render]
+
+/-- **C09_render** for the synchronous stdout sink: its printf sequence produces byte for byte
+what the asynchronous sinks produce (same fields, same marker rule, same colour bracket) -/
+theorem C09_render_sync (color : Bool) (r : Rec) : renderSync color r = renderC color r := by
+  obtain ⟨level, ts, tid, module, func, text, trunc, file, line⟩ := r
+  cases color <;> cases func <;> cases file <;>
+    simp [renderSync, renderC, renderBody, colorOn, colorOff, Rec.head, Rec.funcPiece, Rec.textPiece, Rec.filePiece, List.append_assoc]
+
+theorem cstr_of_no_nul (bs : Bytes) (h : ∀ b ∈ bs, b ≠ 0) : cstr (bs ++ [0]) = bs := by
+  unfold cstr
+  induction bs with
+  | nil => simp
+  | cons x xs ih =>
+    have hx : x ≠ 0 := h x (by simp)
+    simp [hx]
+    simpa using ih (fun b hb => h b (by simp [hb]))
+
+/-- **C09_render** for the syslog sink: one `syslog(LOG_INFO, "%s", …)` call per record whose
+message is the rendered record without the newline — whole, provided no field contains a NUL
+byte (formatted text never does) -/
+theorem C09_render_syslog (color : Bool) (r : Rec) (h : ∀ b ∈ renderBody color r, b ≠ 0) :
+    syslogMsg color r = renderBody color r ∧ renderC color r = syslogMsg color r ++ [10] := by
+  have := cstr_of_no_nul (renderBody color r) h
+  exact ⟨this, by simp [syslogMsg, this, renderC]⟩
+
+/-- the truncation marker distinguishes records in every sink, colour on or off -/
+theorem C09_render_marker_all (color : Bool) (r : Rec) :
+    renderC color { r with trunc := true } ≠ renderC color { r with trunc := false } := by
+  obtain ⟨level, ts, tid, module, func, text, trunc, file, line⟩ := r
+  intro h
+  have := congrArg List.length h
+  simp only [renderC, renderBody, Rec.head, Rec.funcPiece, Rec.textPiece, Rec.filePiece, truncMarker,
+    List.length_append, List.length_cons, List.length_nil, if_true, Bool.false_eq_true, if_false] at this
+  omega
+
 /-! ## (f) file sink -/
 
 /-- **whole records, nothing lost, nothing split**: for every sequence of back-end batches and
@@ -298,6 +361,42 @@ theorem C09_order_is_interleaving {α β : Type} [DecidableEq β] (acts : β →
 theorem C09_files_refine_spec (max : Nat) (batches : List (List Bytes)) :
     specFiles (fileRun max {} batches).files batches.flatten :=
   (C09_file_whole_records max batches).1
+
+
+/-! ### (f') write faults -/
+
+/-- with complete writes the repaired flush is the flush of the theorems above -/
+theorem C09_flushW_refines_flush (max : Nat) (s : FileSt) : flushW max s [] = flush max s := by
+  obtain ⟨closed, cur, total, cache⟩ := s
+  cases cur <;> simp [flushW, flush, writeAll, curData, curTotal]
+
+/-- **no loss, no duplication, no split under partial writes and write errors** (repaired
+`flush()`, patches/C09-04): for every batch sequence, every size limit and EVERY sequence of
+`write` results (short counts, errors), the files in creation order followed by the unwritten
+cache are byte for byte the rendered records in order — nothing is written twice, nothing is
+dropped — and every closed file is a whole group of consecutive records. -/
+theorem C09_file_write_faults (max : Nat) (bs : List (List Bytes × List (Option Nat))) :
+    let s := fileRunW max {} bs
+    let recs := (bs.map (·.1)).flatten
+    s.files.flatten ++ s.cache = recs.flatten ∧
+    (∃ (gc : List (List Bytes)) (gcur : List Bytes), s.closed = gc.map List.flatten ∧ gc.flatten ++ gcur = recs) ∧
+    (s.cur = none → s.cache = []) := by
+  intro s recs
+  have h := fileRunW_inv max bs {} [] winv_init
+  simp only [List.nil_append] at h
+  obtain ⟨gc, gcur, hcl, hrec, hdat⟩ := h.groups
+  refine ⟨?_, ⟨gc, gcur, hcl, hrec⟩, h.idle⟩
+  show (fileRunW max {} bs).files.flatten ++ (fileRunW max {} bs).cache = ((bs.map (·.1)).flatten).flatten
+  rw [files_flatten, List.append_assoc, hdat, hcl, flatten_map_flatten, ← hrec]; simp
+
+/-- the code as found: a short `write` (1 of 3 bytes accepted) leaves the bytes in the file AND
+in the cache; the next flush writes them again — the record is split and duplicated -/
+theorem C09_file_partial_write_counterexample :
+    let s1 := fileBatchAsFound 100 {} ([[1, 2, 10]], some 1)
+    let s2 := fileBatchAsFound 100 s1 ([[3, 10]], some 99)
+    s2.files = [[1, 1, 2, 10, 3, 10]] ∧
+    (fileRunW 100 {} [([[1, 2, 10]], [some 1, none]), ([[3, 10]], [])]).files = [[1, 2, 10, 3, 10]] := by
+  decide
 
 /-! ## non-vacuity -/
 
